@@ -2990,6 +2990,12 @@ start_element_handler (GMarkupParseContext *context,
 	  state_switch (ctx, STATE_ALIAS);
 	  goto out;
 	}
+      if (ctx->state == STATE_ALIAS && strcmp (element_name, "attribute") == 0)
+	{
+	  /* Aliases are expanded, there is no node to attach it to */
+	  state_switch (ctx, STATE_PASSTHROUGH);
+	  goto out;
+	}
       if (start_type (context, element_name,
 		      attribute_names, attribute_values,
 		      ctx, error))
